@@ -365,6 +365,7 @@ type analyzer struct {
 	mutMemo    map[string]int
 	nextLabel  string
 	structs    []string
+	ngo        int
 }
 
 type callInfo struct{ locked, unlocked int }
@@ -1365,7 +1366,8 @@ func (a *analyzer) stmt(s ast.Stmt) (terminated bool) {
 			a.nclos++
 			name := fmt.Sprintf("%s$go%d", a.fn, a.nclos)
 			if a.cfg.mode == "locals" {
-				name = fmt.Sprintf("go%d", a.nclos)
+				a.ngo++
+				name = fmt.Sprintf("go%d", a.ngo) // the k-th `go func` of the function, as in findJoins
 			}
 			a.pending = append(a.pending, closure{fl, name, nil})
 			if a.emitOn {
@@ -1911,7 +1913,7 @@ func (l *localsRun) run() {
 	for k := range l.goLits {
 		allGo = append(allGo, fmt.Sprintf("go%d", k+1))
 	}
-	a.fn, a.locks, a.frames, a.postGo, a.nclos, a.ctor = "main", lockState{}, nil, false, 0, false
+	a.fn, a.locks, a.frames, a.postGo, a.nclos, a.ctor, a.ngo = "main", lockState{}, nil, false, 0, false, 0
 	a.pending = nil
 	spawned := 0
 	var joined []string
@@ -2053,7 +2055,13 @@ func leanBool(b bool) string {
 }
 
 func init() {
-	RegisterGen("Access", func(c *Ctx) string {
+	RegisterGen("Access", func(c *Ctx) (result string) {
+		defer func() {
+			// a construct the analysis does not expect must not take the other properties' tables down with it
+			if e := recover(); e != nil {
+				result = "namespace Rare.Gen.Access\n\n-- the access-table extractor panicked: " + strings.ReplaceAll(fmt.Sprint(e), "\n", " ") + "\n" + untranslatable("access") + "\nend Rare.Gen.Access\n"
+			}
+		}()
 		var sb strings.Builder
 		sb.WriteString("namespace Rare.Gen.Access\n\n")
 		sb.WriteString("structure Acc where\n  fn : String\n  field : String\n  region : String  -- referent region: fields whose referents may overlap share one\n  obj : String     -- \"var\": the field itself; \"ref\": what a reference-typed field refers to\n  write : Bool\n  atomic : Bool\n  lock : String    -- \"\" none, \"W\" exclusive, \"R\" shared\n  mutex : String   -- which mutex\n  esc : String     -- how the reference leaves the function: \"\" (it does not) return arg store global send go addr methodvalue\n  how : String     -- direct / alias (\"@x\") / append / call:… / escape:…\n  ord : List String  -- roles this access is ordered with (go statement, hand-shake)\n  line : Nat\n  deriving DecidableEq, Repr\n\n")
